@@ -88,7 +88,7 @@ class Check:
             self.assumptions.append(text)
 
     # ------------------------------------------------------------------ verdict
-    def finish(self) -> int:
+    def finish(self, ignore_floors=False) -> int:
         # instance floors: a rule matching fewer sites than confirmed by hand is an analysis error
         counts: dict[str, int] = {}
         short: list[str] = []
@@ -114,7 +114,7 @@ class Check:
                 known_hits.append(o)
             else:
                 violations.append(o)
-        if short and not violations:
+        if short and not violations and not ignore_floors:
             # a shortfall alone is an analysis error; next to a concrete violation it is only reported
             raise AnalysisError("; ".join(short))
         os.makedirs(os.path.join(VERIF, "replay"), exist_ok=True)
